@@ -88,6 +88,19 @@ fn gen(dir: &str) {
         let (a, b) = price(&mut r); let (c, d) = price(&mut r);
         emit(&mut out, format!("exu {} {} {} {} {} {}", mem, steps, a, b, c, d));
     }
+    // ex-unit cost, boundary-directed: the priced numerator mem*pn (or steps*pn) lands within a few denominators of
+    // 2^64 (where a machine-word shortcut for the ceiling would saturate or wrap), and the quotient lands next to 2^64
+    // (the exact-or-error boundary of the result)
+    for i in 0..n / 2 {
+        let d: u64 = match r.below(6) { 0 => 1 + r.below(20), 1 => 577, 2 => 10_000, 3 => 1u64 << (1 + r.below(40)), 4 => 10_000_000, _ => 1 + r.below(1_000_000) };
+        let pn: u64 = match r.below(4) { 0 => 1, 1 => 1 + r.below(9), 2 => 721, _ => 1 + r.below(100_000) };
+        let delta = r.below(2 * d.min(1 << 20) + 5) as i128 - (d.min(1 << 20) as i128 + 2);
+        let target: i128 = if i % 3 == 2 { ((1i128 << 64) + r.below(5) as i128 - 2) * d as i128 + delta } else { (1i128 << 64) + delta };
+        let x = (target / pn as i128 + (r.below(3) as i128 - 1)).clamp(0, u64::MAX as i128) as u64;
+        let (zn, zd) = if r.chance(1, 2) { (0u64, 1u64) } else { (0, 1 + r.below(50)) };
+        if r.chance(1, 2) { emit(&mut out, format!("exu {} {} {} {} {} {}", x, r.below(3), pn, d, zn, zd)); }
+        else { emit(&mut out, format!("exu {} {} {} {} {} {}", r.below(3), x, zn, zd, pn, d)); }
+    }
     // min_script_fee over a transaction's redeemers (sums, overflow of the sums, absent redeemers)
     for _ in 0..n / 3 {
         let k: i64 = match r.below(8) { 0 => -1, 1 => 0, _ => 1 + r.below(6) as i64 };
